@@ -413,7 +413,8 @@ impl RdfPlanner {
                     if let Some(&col_idx) = variable_columns.get(name) {
                         projections.push(ProjectExpr::Column(col_idx));
                         output_columns.push(proj.alias.clone().unwrap_or_else(|| name.clone()));
-                        output_types.push(LogicalType::String); // RDF values are strings
+                        // Strings of RDF terms, or the number an aggregate below produced
+                        output_types.push(LogicalType::Any);
                     } else {
                         return Err(Error::Internal(format!(
                             "Variable '{}' not found in input columns",
@@ -2507,9 +2508,11 @@ fn component_to_term(component: &TripleComponent) -> Option<Term> {
     }
 }
 
-/// Derives RDF schema (all String type for simplicity).
+/// Derives the schema operators above the scans rebuild their rows into. The columns
+/// are untyped: next to the strings of RDF terms they carry the numbers aggregates
+/// produce, which a String column would silently turn into "".
 fn derive_rdf_schema(columns: &[String]) -> Vec<LogicalType> {
-    columns.iter().map(|_| LogicalType::String).collect()
+    columns.iter().map(|_| LogicalType::Any).collect()
 }
 
 /// Resolves an expression to a column index.
